@@ -313,6 +313,22 @@ def r4(ctx):
     ccfg = cfg_of(cu)
     ok = len(c) == 1 and [(norm(t), p) for (t, p) in ccfg.conditions_of(ccfg.node_of(c[0]).id)] == [("self.conn", True)]
     ctx.check(ok, "C12.R4", cu, "UdpClient.update always drives conn.update()")
+    # the only way a connection ends on the client is the status machine (DROPPED after 5 s of silence, DISCONNECTED after the connect
+    # timeout): the socket stays unconnected - on a connected UDP socket an ICMP port-unreachable answer comes back as ConnectionRefusedError
+    # from send / recv, at once and outside that machine - and update() discards the connection for ConnectionResetError only
+    conns = []
+    for f in ctx.repo.funcs.values():
+        if f.module.name == "client" and not f.is_lambda:
+            for c in walk_own(f.node):
+                if isinstance(c, ast.Call) and isinstance(c.func, ast.Attribute) and c.func.attr in ("connect", "connect_ex") and norm(c.func.value).endswith("sock"):
+                    conns.append("%s: %s" % (f.qual, norm(c)[:60]))
+    ctx.check(not conns, "C12.R4", cu, "the client's UDP socket is never connected (datagrams go out with sendto)",
+              "a refused port must look like silence: the timeouts decide, not the operating system's error", witness=conns)
+    drops = []
+    for h in [h_ for t_ in walk_own(cu.node) if isinstance(t_, ast.Try) for h_ in t_.handlers]:
+        if any(isinstance(x, ast.Assign) and norm(x.targets[0]) == "self.conn" and norm(x.value) == "None" for x in ast.walk(h)) or any(isinstance(x, ast.Raise) for x in h.body):
+            drops.append(norm(h.type) if h.type is not None else "<bare>")
+    ctx.check(set(drops) <= {"ConnectionResetError"}, "C12.R4", cu, "update() gives a connection up only for ConnectionResetError", witness=drops)
 
 
 def r5(ctx):
